@@ -58,7 +58,8 @@ SRC_DEPS = {
     "C06": ["src/util.rs", "src/content_type.rs"], "C07": ["src/util.rs"], "C08": ["src/util.rs"],
     "C09": ["src/util.rs", "src/http_conn.rs"], "C10": ["src/util.rs", "src/http_conn.rs"],
     "C11": ["src/util.rs", "src/response.rs event_stream", "src/event.rs"],
-    "C15": ["src/cookie.rs"], "C16": ["src/time.rs"], "C18": ["src/log/logger.rs"],
+    "C15": ["src/cookie.rs"], "C16": ["src/time.rs"], "C18": ["src/log/logger.rs log()"],
+    "C17": ["src/log/tag_value.rs", "src/log/logger.rs write_jsonl"], "C19": ["src/log/log_file_writer.rs"],
 }
 
 ALLOWED_AXIOMS = set()  # names of standard-library axioms a property theorem may depend on (none needed so far)
